@@ -216,7 +216,13 @@ fn guarded<C: Check>(c: &C, cfg: &C::Cfg, steps: &[C::Step], stats: &mut Stats) 
                 .cloned()
                 .or_else(|| p.downcast_ref::<&str>().map(|s| s.to_string()))
                 .unwrap_or_else(|| "panic".into());
-            Err(violation("harness.panic", "panic", 0, msg))
+            if msg.contains("HostError") {
+                // a public entry point / getter that the harness calls as infallible (it answered on the unchanged
+                // tree for every seed tried) failed inside the contract: reported as a violation, not a harness error
+                Err(violation("api.infallible_call_failed", "host_error", 0, msg.chars().take(400).collect()))
+            } else {
+                Err(violation("harness.panic", "panic", 0, msg))
+            }
         }
     }
 }
